@@ -773,12 +773,32 @@ pub(crate) mod verif_hooks {
         };
         let removed: HashSet<Uuid> = removed.iter().map(|id| Uuid::from_u128(*id)).collect();
         let known: HashMap<Uuid, _> = known.iter().map(node).collect();
-        let recreated: HashMap<Uuid, _> = recreated.iter().map(node).collect();
+        // As in `ClusterState`: a re-created node's entry is the very object that is in the map of current nodes.
+        let recreated: HashMap<Uuid, _> = recreated
+            .iter()
+            .map(|id| {
+                let uuid = Uuid::from_u128(*id);
+                match known.get(&uuid) {
+                    Some(current) => (uuid, std::sync::Arc::clone(current)),
+                    None => node(id),
+                }
+            })
+            .collect();
         t.perform_maintenance(&removed, &known, &recreated)
     }
 
     pub(crate) fn tablet_is_unresolved(t: &TableTablets, i: usize) -> bool {
         t.tablet_list[i].failed.is_some()
+    }
+
+    /// Whether the first replica of tablet `i` is the same object as `known`'s entry would be after `table_maintain` is not observable from outside;
+    /// what is observable: the address of the first replica's `Node` object.
+    pub(crate) fn tablet_first_replica_ptr(t: &TableTablets, i: usize) -> Option<usize> {
+        t.tablet_list[i]
+            .replicas
+            .all
+            .first()
+            .map(|(n, _)| std::sync::Arc::as_ptr(n) as usize)
     }
 
     pub(crate) fn info_new() -> super::TabletsInfo {
